@@ -6,8 +6,10 @@ z3 proves: the value returned in dual mode and all exposed multipliers are those
 certificate identity for the original problem; the value returned in primal mode is the original objective leaf at the
 LAST solution and is >= first optimum - tol by the row the wrapper added; every later problem contains all original rows
 (so the returned instance is feasible for the original model) plus exactly that one row; the objective handed over is
-<W, G> with W = I (trace) or the regularised inverse (logdet), with no leftover linear term; for the trace heuristic on a
-2x2 Gram the second optimum's trace is <= the first solution's trace (weak duality of the second problem)."""
+<W, G> with W = I (trace) or the regularised inverse (logdet), with no leftover linear term.  'The trace does not increase' itself is NOT decided here: it needs weak duality
+of the second problem instantiated at the first solution, a bilinear real-arithmetic query on which z3 answered unknown
+after 600 s even for a 2x2 Gram matrix; what is proved are its premises (the first solution satisfies every row of the
+second problem, whose objective is exactly trace(G))."""
 import numpy as np
 import z3
 
@@ -163,7 +165,7 @@ def cases(tier):
                     cs.append(dict(id="%s-%s-%s-%s" % (mname, h, be, mode), spec=spec, heuristic=h, backend=be, mode=mode,
                                    input_zero_tests='generic', output_branches='first'))
     cs.append(dict(id="tiny-trace-cvxpy-dual", spec=dict(tiny=True, fclass='smooth', metrics=1), heuristic='trace',
-                   backend='cvxpy', mode='dual', check_trace_decrease=(tier == 'thorough'), input_zero_tests='generic',
+                   backend='cvxpy', mode='dual', check_trace_decrease=False, input_zero_tests='generic',
                    output_branches='first', timeout_ms=600000))
     return cs
 
@@ -177,8 +179,8 @@ def main(tier, only=None):
         assumptions=["every solver call returns independent symbols constrained by its own KKT / primal contract",
                      "np.linalg.eigh / inv replaced by their contracts; eigenvalue-threshold comparisons on solver outputs are "
                      "explored one way in the quick tier ('first' cut: the asserted quantities do not depend on them)",
-                     "'trace does not increase' is decided only for a 2x2 Gram matrix (thorough tier); for larger models it "
-                     "follows from the proved facts (first solution feasible for the second problem) plus optimality, which "
-                     "is not re-derived"],
+                     "'trace does not increase' is not decided (z3: unknown after 600 s on the bilinear weak-duality query, "
+                     "2x2 Gram); its premises are proved: the second problem = original rows + one row satisfied by the first "
+                     "solution, objective exactly trace(G)"],
         bounds=dict(heuristics="trace, logdet0, logdet1 (logdet2 thorough)", models=1 if tier == 'quick' else 3,
                     outside="N > 2 logdet iterations; the numerical rank decision"))
